@@ -6,6 +6,7 @@ import (
 	"errors"
 	"fmt"
 	"os"
+	"os/exec"
 	"path/filepath"
 	"reflect"
 	"strconv"
@@ -15,6 +16,7 @@ import (
 
 	"github.com/notaryproject/notation-go/plugin"
 	"github.com/notaryproject/notation-go/plugin/proto"
+	"github.com/notaryproject/notation-go/zzverif/lib/hx"
 	fw "github.com/notaryproject/notation-plugin-framework-go/plugin"
 )
 
@@ -31,13 +33,38 @@ type result struct {
 	AfterEndMS  int64  `json:"after_end_ms"` // time between the end of the context and the return (-1: returned before)
 	HWMBeforeKB int64  `json:"hwm_before_kb"`
 	HWMAfterKB  int64  `json:"hwm_after_kb"`
-	Printed     bool   `json:"printed"` // stderr-then-sleep plugins: the plugin had finished writing its stderr (marker file) before it was killed
-	Setup       string `json:"setup"`   // non-empty: harness could not set the case up
+	Printed     bool   `json:"printed"`     // stderr-then-sleep plugins: the plugin had finished writing its stderr (marker file) before it was killed
+	EnvFailure  bool   `json:"env_failure"` // the call failed because the machine had no process/memory/descriptor left (or starved the pipe readers)
+	Setup       string `json:"setup"`       // non-empty: harness could not set the case up
 }
 
-const giveUpAfterCtxEnd = 20 * time.Second // the ONLY timing bound of this harness
-const giveUpNoCtx = 25 * time.Second       // background context + descendant: not judged, only bounded so the run ends
-const safetyLimit = 90 * time.Second       // a case that cannot be explained: infrastructure error
+// the ONLY timing bound of this harness: 20 s, stretched by the machine's load factor (hx.Budget, at most x4)
+var giveUpAfterCtxEnd = hx.Budget(20 * time.Second)
+
+// background context + descendant: not judged, only bounded so that the run ends
+var giveUpNoCtx = hx.Budget(25 * time.Second)
+
+// a case that cannot be explained: infrastructure error
+var safetyLimit = hx.Budget(90 * time.Second)
+
+// how long sleeping plugins and pipe-holding descendants stay (the timing names say 60s for key stability): far
+// beyond every stretched bound; all of them are killed when their case ends
+const holdMS = 600000
+
+// environmentFailure: the call failed for a reason that is the overloaded machine's, not the plugin's or the host's
+// decision: no process/memory/descriptor could be had, or (only asked for calls without pipe-holding descendants)
+// the host's wall-clock WaitDelay expired because the starved copying goroutines had not drained the pipes yet.
+func environmentFailure(err error, waitDelayToo bool) bool {
+	if err == nil {
+		return false
+	}
+	for _, e := range []error{syscall.EAGAIN, syscall.ENOMEM, syscall.EMFILE, syscall.ENFILE, syscall.ETXTBSY} {
+		if errors.Is(err, e) {
+			return true
+		}
+	}
+	return waitDelayToo && errors.Is(err, exec.ErrWaitDelay)
+}
 
 // ctxSpec parses a context name: kind deadline|cancel with a delay, or one of the fixed ones.
 func ctxSpec(name string) (kind string, delay time.Duration) {
@@ -137,19 +164,19 @@ func install(root, dir string, c Case) (string, error) {
 			script := "#!/bin/sh\n# generated by the C17 harness\n" + trap + "S='" + sleeper + "'\n" +
 				"printf '%s' '" + strings.ReplaceAll(se.Text, "\n", "") + "' >&2\n" +
 				": > '" + filepath.Join(dir, "printed") + "'\n" +
-				"exec \"$S\" --sleep-child 60000\n"
+				"exec \"$S\" --sleep-child " + itoa(holdMS) + "\n"
 			return path, writeFileNoFork(path, []byte(script), 0o755)
 		}
 		var bg string
 		switch c.Timing {
 		case tShStdout:
-			bg = `"$S" --sleep-child 60000 </dev/null 2>/dev/null 3<&- &`
+			bg = `"$S" --sleep-child ` + itoa(holdMS) + ` </dev/null 2>/dev/null 3<&- &`
 		case tShStderr:
-			bg = `"$S" --sleep-child 60000 </dev/null >/dev/null 3<&- &`
+			bg = `"$S" --sleep-child ` + itoa(holdMS) + ` </dev/null >/dev/null 3<&- &`
 		case tShStdin:
-			bg = `"$S" --sleep-child 60000 <&3 3<&- >/dev/null 2>&1 &`
+			bg = `"$S" --sleep-child ` + itoa(holdMS) + ` <&3 3<&- >/dev/null 2>&1 &`
 		case tShSetsid:
-			bg = `setsid "$S" --sleep-child 60000 </dev/null 3<&- &`
+			bg = `setsid "$S" --sleep-child ` + itoa(holdMS) + ` </dev/null 3<&- &`
 		default:
 			return "", fmt.Errorf("unknown sh timing %q", c.Timing)
 		}
@@ -193,15 +220,15 @@ func install(root, dir string, c Case) (string, error) {
 	case tSlow:
 		b.SleepMS = 1000
 	case tSleep:
-		b.SleepMS = 60000
+		b.SleepMS = holdMS
 	case tSleepNoTerm:
-		b.SleepMS = 60000
+		b.SleepMS = holdMS
 		b.IgnoreTerm = true
 	case tDescExit:
-		b.ChildSleepMS = 60000
+		b.ChildSleepMS = holdMS
 	case tDescSleep:
-		b.ChildSleepMS = 60000
-		b.SleepMS = 60000
+		b.ChildSleepMS = holdMS
+		b.SleepMS = holdMS
 	default:
 		return "", fmt.Errorf("unknown timing %q", c.Timing)
 	}
@@ -511,6 +538,7 @@ func runCase(root, id string, c Case) (res result) {
 		panic(out.pan)
 	}
 	fillResult(c, out, &res)
+	res.EnvFailure = environmentFailure(out.err, !isDesc(c.Timing) && !needsWorker(c) && c.Ctx != cCancelled && !limited)
 	return
 }
 
